@@ -383,6 +383,21 @@ func checkThrift(c *pbt.Ctx, cs Case) {
 			thriftSub(v, cs.U.Root)
 		}
 	})
+	if cs.U.Root.K == tm.STRUCT {
+		call(c, "thrift/generic.GetByPath(name)", len(in), func() {
+			v := generic.NewValue(comp.Root, data)
+			var ps []generic.PathNode
+			for _, fd := range cs.U.Struct(cs.U.Root.Ref).Fields {
+				sub := v.GetByPath(generic.NewPathFieldName(fd.Name))
+				if !sub.IsError() {
+					_ = sub.Raw()
+				}
+				_ = v.FieldByName(fd.Name)
+				ps = append(ps, generic.PathNode{Path: generic.NewPathFieldName(fd.Name)})
+			}
+			_ = v.GetMany(ps, &generic.Options{})
+		})
+	}
 	if cs.U.Root.K == tm.STRUCT || cs.U.Root.K.IsContainer() {
 		call(c, "thrift/generic.Load+Marshal", len(in), func() {
 			tree := generic.PathNode{Node: generic.NewNode(rootT, data)}
@@ -390,6 +405,24 @@ func checkThrift(c *pbt.Ctx, cs Case) {
 				_, _ = tree.Marshal(&generic.Options{})
 			}
 		})
+		for _, o := range []generic.Options{{StoreChildrenByHash: true}, {StoreChildrenById: true}} {
+			o := o
+			call(c, fmt.Sprintf("thrift/generic.Load(byHash=%v,byId=%v)", o.StoreChildrenByHash, o.StoreChildrenById), len(in), func() {
+				tree := generic.PathNode{Node: generic.NewNode(rootT, data)}
+				if err := tree.Load(true, &o); err == nil {
+					_, _ = tree.Marshal(&o)
+				}
+				// lazily, one level at a time
+				lazy := generic.PathNode{Node: generic.NewNode(rootT, data)}
+				if err := lazy.Load(false, &o); err == nil {
+					for i := range lazy.Next {
+						if ch := &lazy.Next[i]; !ch.IsEmpty() {
+							_ = ch.Load(false, &o)
+						}
+					}
+				}
+			})
+		}
 		call(c, "thrift/generic.MarshalTo", len(in), func() {
 			v := generic.NewValue(comp.Root, data)
 			_, _ = v.MarshalTo(comp.Root, &generic.Options{})
@@ -450,6 +483,33 @@ func checkProto(c *pbt.Ctx, cs Case) {
 				case fd.IsList():
 					_ = sub.GetByPath(pgeneric.NewPathIndex(0))
 					_ = sub.GetByPath(pgeneric.NewPathIndex(1 << 30))
+				}
+			}
+		}
+	})
+	call(c, "proto/generic.GetByPath(name)", len(in), func() {
+		v := pgeneric.NewRootValue(desc, data)
+		md := comp.Msg("pkg.Root")
+		var ps []pgeneric.PathNode
+		for i := 0; i < md.Fields().Len(); i++ {
+			fd := md.Fields().Get(i)
+			sub := v.GetByPath(pgeneric.NewPathFieldName(string(fd.Name())))
+			if !sub.IsError() {
+				_ = sub.Raw()
+			}
+			ps = append(ps, pgeneric.PathNode{Path: pgeneric.NewPathFieldId(dproto.FieldNumber(fd.Number()))})
+		}
+		_ = v.GetMany(ps, &pgeneric.Options{})
+	})
+	call(c, "proto/generic.Load(lazy)", len(in), func() {
+		v := pgeneric.NewRootValue(desc, data)
+		lazy := pgeneric.PathNode{Node: v.Node}
+		if err := lazy.Load(false, &pgeneric.Options{}, desc); err == nil {
+			for i := range lazy.Next {
+				if ch := &lazy.Next[i]; !ch.Node.IsError() && ch.Node.Type() != 0 {
+					if fd := (*desc).Message().ByNumber(dproto.FieldNumber(ch.Path.Id())); fd != nil {
+						_ = ch.Load(false, &pgeneric.Options{}, fd.Type())
+					}
 				}
 			}
 		}
